@@ -442,7 +442,71 @@ def r11_9(ctx):
     ctx.floor(n, 6, "stores to _started / _refresh_thread in Live and Progress")
 
 
-RULES = [r11_1, r11_2, r11_3, r11_4, r11_5, r11_6, r11_7, r11_8, r11_9]
+_SHARED_CONTAINER_OK = {
+    "_record_buffer": "every access holds _record_buffer_lock (R11.4)",
+    "_render_hooks": "pushed / popped only by start() / stop() of a live display, under that display's lock (R11.7, R10.1); read by print/log",
+}
+
+
+def r11_10(ctx):
+    ctx.rule("R11.10", "no unguarded per-console scratch state: a list / dict / set that Console.__init__ stores on the instance and that a Console method mutates afterwards (append / extend / del / clear, directly or through a local alias) is shared by every thread using the console; each such attribute must be one of the listed guarded ones (_record_buffer under its lock, the render-hook stack) - per-thread data lives in the thread-local buffer (R11.3), per-call working lists are locals. A reused instance-level work list in the render path lets one thread's output overwrite another's (end_capture renders without the console lock)")
+    cls = ctx.repo.cls("console:Console")
+    init = cls.method("__init__")
+    if init is None:
+        raise AnchorVanished("Console.__init__ not found")
+    containers = {}
+    for x in walk_local(init.node):
+        tgt = val = None
+        if isinstance(x, ast.Assign) and len(x.targets) == 1:
+            tgt, val = x.targets[0], x.value
+        elif isinstance(x, ast.AnnAssign) and x.value is not None:
+            tgt, val = x.target, x.value
+        if tgt is not None and is_attr_of(tgt, "self") and (isinstance(val, (ast.List, ast.Dict, ast.Set)) or (isinstance(val, ast.Call) and norm(val.func) in ("list", "dict", "set", "deque", "OrderedDict", "defaultdict"))):
+            containers[tgt.attr] = x
+    ctx.floor(len(containers), 2, "containers created by Console.__init__")
+    MUT = ("append", "extend", "insert", "pop", "clear", "remove", "update", "setdefault", "popitem", "sort", "reverse", "appendleft", "add", "discard")
+    n = 0
+    for name, lst in cls.methods.items():
+        if name == "__init__":
+            continue
+        for f in lst:
+            al = alias_map(f.node)
+            for x in walk_local(f.node):
+                hit = None
+                if isinstance(x, ast.Call) and isinstance(x.func, ast.Attribute) and x.func.attr in MUT:
+                    e = expand_alias(x.func.value, al)
+                    if is_attr_of(e, "self") and e.attr in containers:
+                        hit = e.attr
+                elif isinstance(x, ast.Call) and isinstance(x.func, ast.Name) and x.func.id in al and isinstance(al[x.func.id], ast.Attribute) and al[x.func.id].attr in MUT:
+                    e = expand_alias(al[x.func.id].value, al)
+                    if is_attr_of(e, "self") and e.attr in containers:
+                        hit = e.attr
+                elif isinstance(x, ast.Delete):
+                    for t in x.targets:
+                        b = t.value if isinstance(t, ast.Subscript) else t
+                        e = expand_alias(b, al)
+                        if is_attr_of(e, "self") and e.attr in containers:
+                            hit = e.attr
+                elif isinstance(x, (ast.Assign, ast.AugAssign)):
+                    for t in (x.targets if isinstance(x, ast.Assign) else [x.target]):
+                        if isinstance(t, ast.Subscript):
+                            e = expand_alias(t.value, al)
+                            if is_attr_of(e, "self") and e.attr in containers:
+                                hit = e.attr
+                if hit is None:
+                    continue
+                n += 1
+                where = f"{f.module.relpath}:{x.lineno}"
+                if hit in _SHARED_CONTAINER_OK:
+                    ctx.ok(where, f"self.{hit}: {_SHARED_CONTAINER_OK[hit]}", f.fq)
+                    continue
+                held = must_held(ctx, f, x)
+                ctx.check(CONSOLE_LOCK in held, f.fq, short(x), where, f"self.{hit} mutated under {fmt_locks(held)}",
+                          f"`{short(x)}` mutates the instance-level container self.{hit} (created once in __init__, shared by all threads) without Console._lock on every way in (held: {fmt_locks(held)}): two threads rendering at the same time - e.g. one leaving capture(), which renders without the lock, while another prints - fill and clear the same list, and one thread's text ends up in the other's output")
+    ctx.floor(n, 3, "mutations of Console's instance containers")
+
+
+RULES = [r11_1, r11_2, r11_3, r11_4, r11_5, r11_6, r11_7, r11_8, r11_9, r11_10]
 
 
 def _xcheck(ctx):
